@@ -99,6 +99,10 @@ def pack(fmt, *args):
             continue
         if c in 'fd':
             if isinstance(a, FloatTok):
+                if c == 'f' and not a.f32 and a.big is not None:
+                    # a double outside the float32 range cannot be packed: OverflowError (not struct.error)
+                    if bool(a.big):
+                        raise OverflowError('float too large to pack with f format')
                 out.append(('opq', a, w, c))
                 continue
             if isinstance(a, (SxReal, SxInt)) and core.is_sym(a):
@@ -140,31 +144,7 @@ def pack(fmt, *args):
     return rope.mk(out)
 
 
-class FloatTok:
-    """a symbolic float value handled as an uninterpreted token (C13/C15).  ``key`` identifies the
-    source value; ``f32`` is True once it has been through a float32 pack/unpack."""
-    __slots__ = ('key', 'f32', 'nan')
-
-    def __init__(self, key, f32=False, nan=None):
-        self.key = key
-        self.f32 = f32
-        self.nan = nan
-
-    def __eq__(self, o):
-        if isinstance(o, FloatTok):
-            if self.key == o.key:
-                # NaN != NaN
-                if self.nan is None:
-                    return True
-                return core.Not(self.nan)
-            raise Unsupported('comparison of unrelated symbolic floats')
-        return NotImplemented
-
-    def __hash__(self):
-        return hash(('FloatTok', self.key))
-
-    def __repr__(self):
-        return 'FloatTok(%s%s)' % (self.key, ',f32' if self.f32 else '')
+from ..floats import FloatTok  # noqa: E402
 
 
 def _int_of(sub, w, signed):
@@ -223,7 +203,7 @@ def unpack(fmt, data):
                 out.append(_real.unpack('>' + c, ps[0][1])[0])
             elif len(ps) == 1 and ps[0][0] == 'opq' and ps[0][3] == c:
                 tok = ps[0][1]
-                out.append(FloatTok(tok.key, f32=tok.f32 or c == 'f', nan=tok.nan))
+                out.append(FloatTok(tok.key, f32=tok.f32 or c == 'f', nan=tok.nan, big=tok.big))
             else:
                 # arbitrary bytes reinterpreted as a float: an unconstrained float value
                 e = core.E()
